@@ -33,6 +33,14 @@ func randName(r *core.Rand, allowLeadingDot bool) string {
 		}
 		b.WriteByte(ch)
 	}
+	// names that already end in (or contain, or equal the org of) the suffix the rule appends: the rule is
+	// unconditional, and where the suffix goes is fixed by position, not by text search
+	switch r.Intn(12) {
+	case 0:
+		return b.String() + "-buildkite-plugin"
+	case 1:
+		return "acme"
+	}
 	return b.String()
 }
 
